@@ -10,7 +10,9 @@ Everything is parameterised by
             (EndpointSlices are not persisted, they are read from the cache at build time);
   * `G`     what one rebuild derives (graph ⇒ configuration ⇒ files and statuses);
   * `build` `BuildGraph` + `BuildConfiguration` + `Generate` + `Prepare*Requests`;
-  * `rel`   the per-kind `stateChangedPredicate`, evaluated against the LATEST graph.
+  * `rel`   the per-kind `stateChangedPredicate`, evaluated against the LATEST graph; it receives the stored
+            (old) object and the event (`funcPredicate.upsert(old,new) = stateChanged(new) || stateChanged(old)`,
+            `delete` judges the stored object).
 Core Lean only.
 -/
 namespace NGF.Store
@@ -51,8 +53,9 @@ structure Ops (K Key Obj C : Type) where
   store : Event K Key Obj → C → C
   /-- what the cluster mutation does to the informer-cache part that `build` reads directly -/
   cache : Event K Key Obj → C → C
-  /-- repaired variant only: `delete` hands the stored object to the predicate (current code: `false`) -/
-  delSeesOld : Bool := false
+  /-- `delete` hands the stored object to the predicate (`subject = old`, since /repo ecaa5d2);
+  `false` reproduces the pre-fix code, where the predicate saw the bare registered type only -/
+  delSeesOld : Bool := true
 
 /-- `ChangeProcessorImpl` + `changeTrackingUpdater` state. -/
 structure Proc (C G : Type) where
@@ -72,7 +75,8 @@ def verdict (O : Ops K Key Obj C) (rel : Option G → Option Obj → Event K Key
       -- upsert: store, then `if !ok { return true }; return stateChanged.upsert(oldObj, obj)`
       if O.hasPred e.kind then rel latest old e else true
   | none =>
-      -- delete: `if s.store.get(...) == nil { return false }`, delete, then the predicate on the bare type
+      -- delete: `old := s.store.get(...); if old == nil { return false }`, delete, then the predicate on
+      -- `subject` (= the stored object for persisted kinds; the bare type otherwise / before ecaa5d2)
       if O.persisted e.kind && old.isNone then false
       else if O.hasPred e.kind then rel latest (if O.delSeesOld then old else none) e else true
 
@@ -154,11 +158,12 @@ end NGF.Store
 `NGF.Props.C01.store_table_as_modelled`) and the trace instance run by the driver. -/
 namespace NGF.Store
 
-/-- kinds with `store != nil` -/
+/-- kinds with `store != nil` (every registered kind since ecaa5d2: EndpointSlices are kept too, so that
+update/delete events can be judged by the previous owner label; `build` still reads them from the cache) -/
 def persistedKinds : List String :=
   ["GatewayClass", "Gateway", "HTTPRoute", "ReferenceGrant", "BackendTLSPolicy", "GRPCRoute", "Namespace",
-   "Service", "Secret", "ConfigMap", "CustomResourceDefinition", "NginxProxy", "ClientSettingsPolicy",
-   "ObservabilityPolicy", "UpstreamSettingsPolicy", "TLSRoute", "SnippetsFilter"]
+   "Service", "EndpointSlice", "Secret", "ConfigMap", "CustomResourceDefinition", "NginxProxy",
+   "ClientSettingsPolicy", "ObservabilityPolicy", "UpstreamSettingsPolicy", "TLSRoute", "SnippetsFilter"]
 
 /-- kinds with `predicate != nil` -/
 def predKinds : List String :=
@@ -166,7 +171,7 @@ def predKinds : List String :=
    "ClientSettingsPolicy", "ObservabilityPolicy", "UpstreamSettingsPolicy"]
 
 /-- all registered kinds -/
-def allKinds : List String := "EndpointSlice" :: persistedKinds
+def allKinds : List String := persistedKinds
 
 abbrev TEvent := Event String Nat Unit
 abbrev TStore := List (String × Nat)
